@@ -9,7 +9,7 @@ import (
 func init() {
 	register(&Property{
 		ID:          "C15",
-		Explanation: "Decides structural necessary conditions of chunk reassembly on the receiver: a non-first chunk is accepted (stream position advanced) only for a tracked stream, only when its id equals the next expected id, only from the sender that started the stream; chunks are handled only with matching deployment id and binary version and under the per-stream lock; nothing is written for a removed replica; every main-file chunk passes the incremental validator and the stream is finalized only after the validator's final check (validation is the constant true in non-test code); the InstallSnapshot notification and the confirmation happen only after a successful finalize; dropping a tracked stream (timeout, close, restart by a new first chunk, invalid stream) removes its temporary directory; a chunk-supplied file path reaches the file system only through PathBase. Does not decide byte-exact reassembly over perturbation sequences; the sender-side chunk size arithmetic is declined.",
+		Explanation: "Decides structural necessary conditions of chunk reassembly on the receiver: a non-first chunk is accepted (stream position advanced) only for a tracked stream, only when its id equals the next expected id, only from the sender that started the stream; chunks are handled only with matching deployment id and binary version and under the per-stream lock; nothing is written for a removed replica; every main-file chunk passes the incremental validator and the stream is finalized only after the validator's final check (validation is the constant true in non-test code); the InstallSnapshot notification and the confirmation happen only after a successful finalize; dropping a tracked stream (timeout, close, restart by a new first chunk, invalid stream) removes its temporary directory; a chunk-supplied file path reaches the file system only through PathBase. Does not decide byte-exact reassembly over perturbation sequences; the sender-side chunk size arithmetic is declined. Record-source table for chunk / notification / job fields; per-stream locks are never deleted or replaced; the chunk writer is closed only after Stream succeeded; a refused publish is never success.",
 		NotCovered:  "exact bytes of reassembled files over loss/duplication/reordering sequences; sender-side chunk size arithmetic (value-level)",
 		Run:         runC15,
 	})
